@@ -614,7 +614,9 @@ func oneHistory(c *vh.Ctx, i int) {
 		state[s.Key] = s.Initial
 	}
 	bursts := genHistory(r, slotList, c.N(60, 90))
-	s := startServer(histWorld(), nil)
+	// InitContext is stretched by 4 ms per config-store read (see poke.go): the window in which a push created from the
+	// published snapshot can interleave with the computation of the next one is as wide as on a large mesh
+	s := startServerWith(histWorld(), nil, 4*time.Millisecond)
 	defer s.close()
 	connected, extra := histCheckSpecs()
 	var clients []*adsClient
@@ -717,6 +719,14 @@ func oneHistory(c *vh.Ctx, i int) {
 					class = "stale"
 				}
 				k := fmt.Sprintf("hist:%s:%s", class, d.Type)
+				// trace the served object to the push that wrote it into the cache: a writer that generated from an OLDER snapshot
+				// than the published one names the observed order of invalidation / snapshot computation / publication
+				if rec, ok := s.in.writerOf(served[pi].ptr[d.Type][d.Name]); ok && got != nil {
+					if cause, detail := s.in.staleCause(rec, push); cause != "" {
+						k += ":cause=" + cause
+						d.Diff = detail + "; " + d.Diff
+					}
+				}
 				if seenKey[k] {
 					continue
 				}
@@ -799,9 +809,14 @@ func oneHistory(c *vh.Ctx, i int) {
 	}
 
 	checkpoint(0, nil)
+	// From here on ProxyUpdate / debug pushes for the connected clients run concurrently with the ingestion of every burst.
+	pk := startPoker(s, clients, c.Rng("hist-poke", i))
+	defer pk.close()
 	for bi, burst := range bursts {
+		pk.resume()
 		for _, op := range burst {
 			if op.Instant {
+				pk.pause() // the instant check needs an idle control plane before the endpoint update
 				waitIdle(s.ds)
 				// make sure the affected entries are cached (read-write generation at an idle point follows the protocol)
 				pc := s.srv.PushContext()
@@ -813,6 +828,7 @@ func oneHistory(c *vh.Ctx, i int) {
 			s.applyOp(op, slots, state)
 			if op.Instant {
 				instant(op)
+				pk.resume()
 			}
 			applied = append(applied, op)
 			if op.Slot != "" {
@@ -822,13 +838,29 @@ func oneHistory(c *vh.Ctx, i int) {
 			}
 		}
 		runtime.Gosched()
+		// keep pushing until every change of the burst is in a published snapshot, then let the control plane settle
+		for deadline := time.Now().Add(idleWatchdog); s.ds.InboundUpdates.Load() != s.ds.CommittedUpdates.Load(); time.Sleep(200 * time.Microsecond) {
+			if time.Now().After(deadline) { // watchdog only: the case is abandoned, never judged
+				vh.Abort("updates of the burst were not committed")
+			}
+		}
+		pk.pause()
 		checkpoint(bi+1, burst)
 	}
+	pk.close()
 	pushes := 0
 	for _, cl := range clients {
 		pushes += cl.responses(v3.ClusterType) + cl.responses(v3.EndpointType) + cl.responses(v3.RouteType)
 	}
 	c.Count("hist_histories", 1)
+	c.Count("hist_pushes_from_published_snapshot:proxy-update", pk.proxyUpdates)
+	c.Count("hist_pushes_from_published_snapshot:debug-push-all", pk.pushAlls)
+	c.Count("hist_pushes_issued_with_start_inside_an_initcontext_window", pk.inside)
+	c.Count("hist_initcontext_windows", int(s.in.windows.Load()))
+	c.Count("hist_initcontext_config_store_reads_delayed", int(s.in.listsDelayed.Load()))
+	c.Count("hist_cache_adds_from_replaced_snapshot_inside_an_initcontext_window", int(s.in.addsInside.Load()))
+	c.Count("hist_cache_adds_accepted_inside_an_initcontext_window", int(s.in.addsInsideAccepted.Load()))
+	c.Count("hist_cache_invalidations_by_discovery_server", int(s.in.dsClears.Load()))
 	c.Count("hist_ops", len(applied))
 	c.Count("hist_checkpoints", checkpoints)
 	c.Count("hist_nontrivial_checkpoints", nontrivialCheckpoints)
